@@ -346,6 +346,17 @@ func (c *CoAComponent) handleCoARequest(req *coaRequest) {
 		return
 	}
 
+	// Only the documented mutable session attributes may be changed by a
+	// CoA; anything else is refused as a whole (RFC 5176 section 3.5,
+	// Error-Cause 401) instead of being written into the live session.
+	for k := range attrs {
+		if !subscriber.IsMutableAttribute(k) {
+			c.stats.IncrCoANAK(req.client.key)
+			c.sendResponse(req.src, req.client.secret, req.packet, codeCoANAK, errorCauseUnsupportedAttr, req.raw)
+			return
+		}
+	}
+
 	result, err := c.mutateViaEventBus(target, attrs)
 	if err != nil {
 		c.stats.IncrCoANAK(req.client.key)
